@@ -188,6 +188,22 @@ def check_c05(tier, seed):
     report_rejections(chk, 'DznDocTrace', 'DznDocTrace.cfg', traces, 'random documents')
     for trc in traces:
         chk.count(('trace', trc['id']))
+    # long scope chains: every enclosing namespace is part of the fully qualified name, however many there are
+    for depth in (40, 101, 150, 260):
+        idents = [f'n{k}' for k in range(depth)]
+        doc = [{'t': 'open', 'ids': [i]} for i in idents] + [{'t': 'decl', 'kind': 'enum', 'name': ['E'], 'pay': 'p0', 'types': []}] + \
+              [{'t': 'close'}] * depth
+        chk.count(('deep-fqn', depth))
+        try:
+            from dznpy import json_ast  # pylint: disable=import-outside-toplevel
+            fct = _quiet(lambda: json_ast.DznJsonAst(dzn.doc_to_json(doc)).process())   # pylint: disable=cell-var-from-loop
+            got = [list(e.fqn.items) for e in fct.enums]
+        except Exception as exc:  # pylint: disable=broad-except
+            got = f'{type(exc).__name__}'
+        if got != [idents + ['E']] and got != 'DznJsonError':
+            chk.violation(f'enum declared inside {depth} nested namespaces: fully qualified name has '
+                          f'{len(got[0]) if isinstance(got, list) and got else got} identifiers instead of {depth + 1}',
+                          {'depth': depth, 'observed': got if not isinstance(got, list) else [g[:3] + ['...'] + g[-3:] for g in got]})
     chk.exhaustive = True
     chk.assumptions = ['payloads are opaque in the model; that the parsed payload equals the written one is decided by '
                        'the harness unparser (harness/dzn.py), which is independent of dznpy',
@@ -715,6 +731,31 @@ def replay_scoping_case(case):
                 back = scoping.namespaceids_t(text).items
                 if back != items:
                     bad.append((f'round trip through {text!r}', items, back))
+            # the same identifiers given as a tuple: refused, or a value that is indistinguishable from the list-built one
+            for how, make in (('namespaceids_t', scoping.namespaceids_t), ('NamespaceIds', lambda t: scoping.NamespaceIds(items=t))):
+                try:
+                    tup = make(tuple(items))
+                except (scoping.NamespaceIdsTypeError, TypeError):
+                    continue
+                if not (tup == nsi and str(tup) == str(nsi) and list(tup.items) == items and isinstance(tup.items, list)):
+                    bad.append((f'{how}(tuple) handed out', f'refused, or equal to the list-built {items!r}', repr(tup)))
+            # a value that was handed out and then extended in place by its holder does not change what is handed out next
+            if items:
+                mine = scoping.namespaceids_t(str(nsi))
+                mine += scoping.namespaceids_t('zz')
+                again = scoping.namespaceids_t(str(nsi)).items
+                if again != items:
+                    bad.append((f'namespaceids_t({str(nsi)!r}) after an earlier result was extended in place', items, again))
+        else:
+            pass
+        empty = scoping.namespaceids_t('')
+        if empty.items:
+            bad.append(("namespaceids_t('')", [], list(empty.items)))
+        else:
+            empty += scoping.namespaceids_t('zz')
+            if scoping.namespaceids_t('').items or scoping.ns_ids_t([]).items:
+                bad.append(("namespaceids_t('') after an earlier empty result was extended in place", [],
+                            [list(scoping.namespaceids_t('').items), list(scoping.ns_ids_t([]).items)]))
         return bad
     except Exception as exc:  # pylint: disable=broad-except
         return [('exception', None, f'{type(exc).__name__}: {exc}')]
